@@ -210,6 +210,115 @@ func extractC02(c *Ctx) error {
 		return fmt.Errorf("pruneAttestations: const eventsToKeep not recognised")
 	}
 
+	// attestationTally returns the error of TryAttestation (an error at one attestation ends the tally)
+	abort := false
+	ast.Inspect(tl.Body, func(n ast.Node) bool {
+		bs, ok := n.(*ast.BlockStmt)
+		if !ok {
+			return true
+		}
+		for i, st := range bs.List {
+			as, ok := st.(*ast.AssignStmt)
+			if !ok || len(as.Rhs) != 1 || !strings.Contains(c.Src(as.Rhs[0]), "k.TryAttestation(") || i+1 >= len(bs.List) {
+				continue
+			}
+			if is, ok := bs.List[i+1].(*ast.IfStmt); ok && c.Src(is.Cond) == "err != nil" && len(is.Body.List) == 1 && c.Src(is.Body.List[0]) == "return err" {
+				abort = true
+			}
+		}
+		return true
+	})
+
+	// every store of the oracle is opened with the chain reference id of the claim / of the call
+	type site struct{ file, fn, arg string }
+	sites := []site{
+		{"x/skyway/keeper/attestation.go", "SetAttestation", "chainReferenceID"}, {"x/skyway/keeper/attestation.go", "GetAttestation", "chainReferenceID"},
+		{"x/skyway/keeper/attestation.go", "DeleteAttestation", "chainReferenceID"}, {"x/skyway/keeper/attestation.go", "IterateAttestations", "chainReferenceID"},
+		{"x/skyway/keeper/attestation.go", "GetLastObservedSkywayNonce", "chainReferenceID"}, {"x/skyway/keeper/attestation.go", "setLastObservedSkywayNonce", "chainReferenceID"},
+		{"x/skyway/keeper/attestation.go", "GetLastObservedEthereumBlockHeight", "chainReferenceID"}, {"x/skyway/keeper/attestation.go", "SetLastObservedEthereumBlockHeight", "chainReferenceID"},
+		{"x/skyway/keeper/attestation.go", "GetLastSkywayNonceByValidator", "chainReferenceID"}, {"x/skyway/keeper/attestation.go", "SetLastSkywayNonceByValidator", "chainReferenceID"},
+		{"x/skyway/keeper/attestation.go", "IterateValidatorLastEventNonces", "chainReferenceID"}, {"x/skyway/keeper/attestation.go", "GetLatestCompassID", "chainReferenceID"},
+		{"x/skyway/keeper/attestation.go", "setLatestCompassID", "chainReferenceID"}, {"x/skyway/keeper/keeper.go", "overrideNonce", "chainReferenceId"},
+		{"x/skyway/keeper/keeper.go", "UpdateValidatorNoncesToLatest", "chainReferenceId"},
+	}
+	for _, st := range sites {
+		f, err := c.Parse(st.file)
+		if err != nil {
+			return err
+		}
+		fn := FindFunc(f, "Keeper", st.fn)
+		if fn == nil {
+			return fmt.Errorf("Keeper.%s not found", st.fn)
+		}
+		opens := 0
+		for _, ce := range Calls(fn.Body, "GetStore") {
+			if len(ce.Args) != 2 || c.Src(ce.Args[1]) != st.arg {
+				return fmt.Errorf("%s: store opened with %s, expected the chain reference id parameter %s", st.fn, c.Src(ce), st.arg)
+			}
+			opens++
+		}
+		if opens == 0 {
+			return fmt.Errorf("%s: k.GetStore(ctx, %s) not found", st.fn, st.arg)
+		}
+	}
+	chainArg := func(fn *ast.FuncDecl, names ...string) error {
+		for _, nm := range names {
+			cs := Calls(fn.Body, nm)
+			if len(cs) == 0 {
+				return fmt.Errorf("%s: call of %s not found", fn.Name.Name, nm)
+			}
+			for _, ce := range cs {
+				found := false
+				for _, a := range ce.Args {
+					if c.Src(a) == "claim.GetChainReferenceId()" {
+						found = true
+					}
+				}
+				if !found {
+					return fmt.Errorf("%s: %s is not called with claim.GetChainReferenceId()", fn.Name.Name, c.Src(ce))
+				}
+			}
+		}
+		return nil
+	}
+	if err := chainArg(at, "GetLastSkywayNonceByValidator", "GetAttestation", "SetAttestation", "SetLastSkywayNonceByValidator"); err != nil {
+		return err
+	}
+	if err := chainArg(try, "GetLastObservedSkywayNonce", "SetLastObservedEthereumBlockHeight", "setLastObservedSkywayNonce", "SetAttestation"); err != nil {
+		return err
+	}
+	for _, ce := range append(Calls(tl.Body, "GetAttestationMapping"), Calls(tl.Body, "GetLastObservedSkywayNonce")...) {
+		if len(ce.Args) != 2 || c.Src(ce.Args[1]) != "chainReferenceID" {
+			return fmt.Errorf("attestationTally: %s is not called with the tallied chain's id", c.Src(ce))
+		}
+	}
+	gm := FindFunc(af, "Keeper", "GetAttestationMapping")
+	if gm == nil || len(Calls(gm.Body, "GetLatestCompassID")) != 1 || c.Src(Calls(gm.Body, "GetLatestCompassID")[0].Args[1]) != "chainReferenceID" ||
+		len(Calls(gm.Body, "IterateAttestations")) != 1 || c.Src(Calls(gm.Body, "IterateAttestations")[0].Args[1]) != "chainReferenceID" {
+		return fmt.Errorf("GetAttestationMapping: compass id and attestations are not read for the same chainReferenceID")
+	}
+
+	// the three claim handlers of the msg server admit only the operator of a Bonded validator
+	mf, err := c.Parse("x/skyway/keeper/msg_server.go")
+	if err != nil {
+		return err
+	}
+	chk := FindFunc(mf, "msgServer", "checkOrchestratorValidatorInSet")
+	if chk == nil {
+		return fmt.Errorf("msgServer.checkOrchestratorValidatorInSet not found")
+	}
+	bondedReq := strings.Contains(strings.ReplaceAll(c.Src(chk.Body), " ", ""), "ifval==nil||!val.IsBonded(){")
+	for _, h := range []string{"SendToPalomaClaim", "BatchSendToRemoteClaim", "LightNodeSaleClaim"} {
+		fn := FindFunc(mf, "msgServer", h)
+		if fn == nil {
+			return fmt.Errorf("msgServer.%s not found", h)
+		}
+		a, b := Calls(fn.Body, "checkOrchestratorValidatorInSet"), Calls(fn.Body, "claimHandlerCommon")
+		if len(a) != 1 || len(b) != 1 || a[0].Pos() > b[0].Pos() {
+			return fmt.Errorf("msgServer.%s: checkOrchestratorValidatorInSet before claimHandlerCommon not recognised", h)
+		}
+	}
+
 	c.P("(* x/skyway/types/genesis.go: AttestationVotesPowerThreshold = %s;", thr)
 	c.P("   x/skyway/keeper/attestation.go TryAttestation: requiredPower = Threshold*total quo %s, fires when attestationPower.%s(requiredPower) *)", den, cmp)
 	c.P("Definition threshold_num : Z := %s.", num)
@@ -219,11 +328,20 @@ func extractC02(c *Ctx) error {
 	c.P("Definition vote_dedup : bool := %v.", dedup)
 	c.P("(* TryAttestation: SetLastObservedEthereumBlockHeight (can fail) called before setLastObservedSkywayNonce? *)")
 	c.P("Definition height_before_cursor : bool := %v.", posHeight < posCursor)
+	c.P("(* attestationTally: `err := k.TryAttestation(...); if err != nil { return err }` — an error ends the tally *)")
+	c.P("Definition tally_aborts_on_error : bool := %v.", abort)
+	c.P("(* msgServer.checkOrchestratorValidatorInSet: `if val == nil || !val.IsBonded()` rejects; called by all three claim handlers before Attest *)")
+	c.P("Definition vote_requires_bonded : bool := %v.", bondedReq)
+	c.P("(* stores of the oracle opened with the chain reference id of the call (attestation.go getters/setters, overrideNonce, UpdateValidatorNoncesToLatest) *)")
+	c.P("Definition per_chain_store_sites : Z := %d.", len(sites))
 	c.P("(* pruneAttestations *)")
 	c.P("Definition events_to_keep : Z := %s.", keep)
 	c.Info("threshold", fmt.Sprintf("%s/%s %s", num, den, cmp))
 	c.Info("vote_dedup", dedup)
 	c.Info("height_before_cursor", posHeight < posCursor)
 	c.Info("events_to_keep", keep)
+	c.Info("tally_aborts_on_error", abort)
+	c.Info("vote_requires_bonded", bondedReq)
+	c.Info("per_chain_store_sites", len(sites))
 	return nil
 }
